@@ -61,6 +61,12 @@ let () = Reg.register "c15.sets" (fun inp out ->
   let verdict =
     if verdict = "ok" && m.m_sets <> [] && not (Sets.sets_certb t vals m.m_sets m.m_inputs)
     then "bad:closure-certificate-failed" else verdict in
+  (* side condition of C15_sets_exact_first_last: on models without reachable set nonterminals the generated system is,
+     at the first / last keys, the declarative one (proved-sound checker SetsGen.sets_gen_ok) *)
+  let verdict =
+    if verdict = "ok" && m.m_sets <> [] && SetsGen.sets_gen_scope t vals m.m_sets m.m_inputs
+       && not (SetsGen.sets_gen_ok t vals m.m_sets m.m_inputs)
+    then "bad:generated-system-check-failed" else verdict in
   (model, verdict))
 
 (* end to end: %generate sets and afterErr through compiler.Compile (grammar.Grammar.Sets, IsRecovering) *)
